@@ -14,7 +14,8 @@ RULE = ('complete enumeration: calc_bid_score on 35 bids x (x,xx) x vul x 0..13 
         '35 bids x (x,xx) in {00,10,11,01} x 4 vulnerabilities x (4 declarers + None) x 0..13; '
         'passed-out contracts (final_bid None and Bid.Pass) x flags x 4 vul x 5 declarers x 0..13. '
         'distinct = distinct case op-lists; every case is non-trivial (it evaluates the scoring code)')
-TRUSTED = ['on this finite domain the correspondence is exhaustive, so the implementation equals the model pointwise']
+TRUSTED = ['the MiniPy semantics (Model/MiniPy.lean: value semantics, no aliasing) and the code translator (harness/translate_py.py), validated on every run by executing the translated program next to the real code (counters translated_*)',
+           'on this finite domain the correspondence is exhaustive, so the implementation equals the model pointwise']
 ASSUMPTIONS = ['CPython int arithmetic and tuple indexing', 'taken tricks are within 0..13 (the domain of the property)']
 
 VULS = ['None', 'NS', 'EW', 'Both']
